@@ -178,12 +178,36 @@ def finish(ctx, t0, seed=0):
     return rc
 
 
+def selftest_obligations(ctx):
+    """thorough tier: the rule set must still fire on every one-instance-broken variant recorded for
+    this property (and stay silent on the behaviour-preserving ones)."""
+    import glob
+    from . import selftest
+    if os.environ.get("WF_REPO"):
+        return  # never recurse from inside a self-test run
+    ctx.rule("SELFTEST", "every recorded mutant of this property is still caught under its expected key; behaviour-preserving variants stay silent", 0)
+    patches = []
+    for pth in sorted(glob.glob(os.path.join(VERIF, "selftest", "mutants", "*.patch")) +
+                      glob.glob(os.path.join(VERIF, "seeded", "*", "patch.diff"))):
+        hdr = selftest.read_header(pth)
+        if ctx.prop in [x.strip() for x in hdr.get("property", "").split(",")]:
+            patches.append(pth)
+    import concurrent.futures
+    with concurrent.futures.ThreadPoolExecutor(max_workers=int(os.environ.get("WF_JOBS", "6"))) as ex:
+        for name, ok, msg, dt in ex.map(lambda q: selftest.run_one(q, only_prop=ctx.prop), patches):
+            ctx.ob("SELFTEST", name, ok, msg, "selftest", nontrivial=ok)
+
+
 def run_property(prop, tier="quick", repo=None, seed=0):
     t0 = time.time()
     ctx = Ctx(prop, tier, repo)
     try:
         mod = importlib.import_module("wfstatic.rules.%s" % prop.lower())
         mod.run(ctx)
+        if tier == "thorough":
+            if hasattr(mod, "thorough"):
+                mod.thorough(ctx)
+            selftest_obligations(ctx)
     except Exception as e:  # build failure etc: fail closed, but as a broken check, loudly
         traceback.print_exc()
         ctx.anchor_lost("engine", "%s: %s" % (type(e).__name__, e))
